@@ -33,6 +33,8 @@ def judge_exec(prog, r, exp, r1, spec, conv, out, r2=None):
     if spec.get("r1", True) and exp is not None:
         if r.outcome != exp:
             found.append(("outcome-mismatch", "outcome %r, sequential evaluation gives %r" % (r.outcome, exp)))
+        if r.unfinished:
+            found.append(("awaited-not-computed", "the computation ended (%s) but a task it started is still uncomputed" % (r.outcome[0],)))
         if not r.unfinished:
             if r.started != r1.started:
                 extra = sorted(r.started - r1.started)
